@@ -259,7 +259,7 @@ pub const ELEM_FNS: &[FnSpec] = &[
     FnSpec { name: "tan", dom: &[(-1.45, 1.45), (1.7, 4.6), (-4.6, -1.7)] },
     FnSpec { name: "sinh", dom: &[(-4.0, 4.0)] },
     FnSpec { name: "cosh", dom: &[(-4.0, 4.0)] },
-    FnSpec { name: "tanh", dom: &[(-4.0, 4.0)] },
+    FnSpec { name: "tanh", dom: &[(-4.0, 4.0), (-40.0, 40.0), (700.0, 760.0), (-760.0, -700.0), (80.0, 100.0)] },
     FnSpec { name: "asin", dom: &[(-0.95, 0.95)] },
     FnSpec { name: "acos", dom: &[(-0.95, 0.95)] },
     FnSpec { name: "atan", dom: &[(-20.0, 20.0)] },
